@@ -9,6 +9,7 @@
 package sim
 
 import (
+	"sync/atomic"
 	"bytes"
 	"context"
 	"crypto/sha256"
@@ -45,6 +46,7 @@ type Config struct {
 	Crashed []int  // replica ids that are silent from the start
 	Leaders []int  // leader of view v is Leaders[(v-1) mod len]; empty = the repository's round robin
 	Batch   int    // commands per block
+	AsyncVotes bool // votes are verified concurrently (the production default) instead of synchronously
 	ActorReuseCmds bool // every other block of the actor re-proposes the commands of an earlier block
 	ActorAuto bool // the actor behaves honestly by default (votes, collects, proposes); scripted actions are the deviations
 	ByView  []ViewSpec // optional Twins-style scenario: partitions (and leader) chosen by the SENDER's view, messages dropped at send time
@@ -160,6 +162,11 @@ type Cluster struct {
 	Held    int
 	keys    map[hotstuff.ID]hotstuff.PrivateKey
 	Inconclusive string
+	wdStack atomic.Value
+	wdSince atomic.Int64
+	wdFired atomic.Int64
+	wdStop  chan struct{}
+	closed  bool
 }
 
 // Leader returns the leader of a view under the configured schedule.
@@ -248,13 +255,15 @@ func New(cfg Config) (*Cluster, error) {
 	}
 	for _, st := range cl.Stacks {
 		for id := 1; id <= cfg.N; id++ {
-			st.Cfg.AddReplica(&hotstuff.ReplicaInfo{ID: hotstuff.ID(id), PubKey: cl.keys[hotstuff.ID(id)].Public()})
+			st.Cfg.AddReplica(&hotstuff.ReplicaInfo{ID: hotstuff.ID(id), PubKey: cl.keys[hotstuff.ID(id)].Public(), Metadata: cl.ByID[hotstuff.ID(id)][0].Cfg.ConnectionMetadata()})
 		}
 	}
 	if len(cfg.Actors) > 0 {
 		cl.Actor = newActor(cl)
 	}
 	cl.register(hotstuff.GetGenesis())
+	cl.wdStop = make(chan struct{})
+	go cl.watchdog(cl.wdStop)
 	return cl, nil
 }
 
@@ -264,12 +273,21 @@ func (cl *Cluster) newBase(cfg *core.RuntimeConfig) crypto.Base {
 		return crypto.NewECDSA(cfg)
 	case "eddsa":
 		return crypto.NewEDDSA(cfg)
+	case "bls12":
+		b, err := crypto.NewBLS12(cfg)
+		if err != nil {
+			panic(err)
+		}
+		return b
 	}
 	return &fastBase{cfg: cfg}
 }
 
 func (cl *Cluster) wire(st *Stack) error {
-	opts := []core.RuntimeOption{core.WithSyncVerification()}
+	var opts []core.RuntimeOption
+	if !cl.Cfg.AsyncVotes {
+		opts = append(opts, core.WithSyncVerification())
+	}
 	if cl.Cfg.Rules == rules.NameFastHotStuff {
 		opts = append(opts, core.WithAggregateQC())
 	}
@@ -322,6 +340,10 @@ func (cl *Cluster) wire(st *Stack) error {
 
 // Close stops the timers of all stacks (each advanceView arms an hours-long timer that would keep the cluster reachable).
 func (cl *Cluster) Close() {
+	if !cl.closed {
+		cl.closed = true
+		close(cl.wdStop)
+	}
 	for _, st := range cl.Stacks {
 		if st.Live() {
 			st.Synch.VerifStopTimer()
@@ -532,37 +554,41 @@ const maxTicks = 20000
 
 func (cl *Cluster) drain(st *Stack) {
 	// Harness guard only: should CommandCache.Get ever block inside the single-threaded run (the top-up rule is meant
-	// to make that impossible), a watchdog cancels the proposer's context through the event loop so that the run goes on;
-	// the run is then reported as inconclusive, never as a violation.
-	done := make(chan struct{})
-	fired := false
-	go func() {
-		t := time.NewTimer(10 * time.Second)
-		defer t.Stop()
-		for {
-			select {
-			case <-done:
-				return
-			case <-t.C:
-				fired = true
-				st.EL.AddEvent(hotstuff.TimeoutEvent{View: 0})
-				t.Reset(10 * time.Second)
-			}
-		}
-	}()
-	defer func() {
-		close(done)
-		if fired {
-			cl.Starved++
-			cl.Inconclusive = "harness: a proposer waited for client commands (watchdog released it)"
-		}
-	}()
+	// to make that impossible), the cluster's watchdog cancels the proposer's context through the event loop so that
+	// the run goes on; the run is then reported as inconclusive, never as a violation.
+	cl.wdStack.Store(st)
+	cl.wdSince.Store(time.Now().UnixNano())
+	defer cl.wdSince.Store(0)
 	for i := 0; i < maxTicks; i++ {
 		if !st.EL.Tick(context.Background()) {
+			if cl.wdFired.Load() > 0 {
+				cl.Starved = int(cl.wdFired.Load())
+				cl.Inconclusive = "harness: a proposer waited for client commands (watchdog released it)"
+			}
 			return
 		}
 	}
 	cl.Inconclusive = "event loop did not quiesce within the tick guard"
+}
+
+func (cl *Cluster) watchdog(stop chan struct{}) {
+	t := time.NewTicker(2 * time.Second)
+	defer t.Stop()
+	for {
+		select {
+		case <-stop:
+			return
+		case <-t.C:
+			since := cl.wdSince.Load()
+			if since != 0 && time.Now().UnixNano()-since > int64(10*time.Second) {
+				if st, ok := cl.wdStack.Load().(*Stack); ok && st != nil {
+					cl.wdFired.Add(1)
+					st.EL.AddEvent(hotstuff.TimeoutEvent{View: 0})
+					cl.wdSince.Store(time.Now().UnixNano())
+				}
+			}
+		}
+	}
 }
 
 // Start lets the leader(s) of view 1 propose, as Synchronizer.Start / twins.Network.run do.
